@@ -77,6 +77,8 @@ def atomic_hook(cells, fresh_loads=False):
             return NotImplemented
         bits = 32
         ty = "i32" if "i32" in cell.key[1] else "u32"
+        if "Atomic<" not in cell.key[1]:
+            return NotImplemented
         cur = st.aux.get(("atomic", name))
         if cur is None:
             cur = z3.BitVec(f"{name}_init", bits)
@@ -115,3 +117,13 @@ def atomic_hook(cells, fresh_loads=False):
         st.trace.append(("atomic", ev))
         return res
     return h
+
+
+BOUNDARY = {"format_file", "format_string", "format_code", "format_ast", "create_diff", "convert_parse_error_to_json", "load_configuration",
+            "load_configuration_for_stdin", "path_is_stylua_ignored", "format", "main", "output_diff", "output_diff_unified", "output_diff_json"}
+
+
+def inline_cli_helpers(name, fn):
+    """inline small in-crate helpers (so that extracting a helper function does not blind an analysis), never the big boundary functions"""
+    last = canon(name).split("::")[-1]
+    return last not in BOUNDARY and "{closure" not in fn.name and len(fn.blocks) <= 60 and not fn.name.startswith(("opt::", "config::"))
